@@ -18,10 +18,10 @@ def check(run):
     run.build_harness()
     run.tlc_mc("XState.tla", "MC_XState_miner.cfg", timeout=3000)
     plans = [dict(num=90, ops=22, maxb=8, driver_args=["-replica"], batch=120)] if quick else \
-            [dict(num=900, ops=24, maxb=8, driver_args=["-replica"], batch=150), dict(num=400, ops=34, maxb=11, driver_args=["-replica"], batch=150)]
+            [dict(num=600, ops=24, maxb=8, driver_args=["-replica"], batch=150), dict(num=300, ops=34, maxb=11, driver_args=["-replica"], batch=150)]
     # a chain with 1 MB blocks and 300 KB transactions: the pool exceeds the block budget, packBlock takes a prefix
     bigtx = '{"b1", "b2", "b3", "s4", "t1", "t2", "p1", "p2"}'
-    plans.append(dict(num=40 if quick else 400, ops=20, maxb=8, txs=bigtx, budget=8, driver_args=["-replica", "-maxmb", "1"], batch=100))
+    plans.append(dict(num=40 if quick else 300, ops=20, maxb=8, txs=bigtx, budget=8, driver_args=["-replica", "-maxmb", "1"], batch=100))
     # a chain whose award decays (1000 x (3/4)^(height div 2), rounded): every node must compute the award of a height
     # the same way whatever it has computed before (producer after a long run, fresh replica, restarted node)
     decay = {"AwardSched": "<- DecaySched"}
@@ -31,13 +31,13 @@ def check(run):
     # engine level: the real Miner.mining round and the real ProcBlock pipeline on peers' chains
     ebehs, est = ([], {})
     if not run.violations:
-        ebehs, est = xc.engine_phase(run, 40 if quick else 500)
+        ebehs, est = xc.engine_phase(run, 40 if quick else 300)
     # network level: several real engines exchange the blocks they mine; every produced block must be accepted by the
     # other nodes and lead them to the producer's state (Net.tla)
     nst = {}
     if not run.violations:
         run.tlc_mc("Net.tla", "MC_Net.cfg" if quick else "MC_Net_thorough.cfg", timeout=3000)
-        _, nst = xc.net_phase(run, 20 if quick else 300, mc=False)
+        _, nst = xc.net_phase(run, 20 if quick else 250, mc=False)
     behs = [b for _, bs, _ in groups for b in bs]
     st = xc.stats(behs)
     ops = [o for b in behs for o in b]
